@@ -31,6 +31,7 @@ KEYS = {
     'k3': ('v6u', '2001:db8:3::/48'),
     'k4': ('v4u', '10.0.1.0/24 path-information 0.0.0.2'),  # second path of k1's prefix (ADD-PATH)
     'k5': ('v6u', '2001:db8:5::/48'),
+    'k6': ('v4u', '10.0.1.0/24 path-information 0.0.0.1'),  # with k4: two explicit ADD-PATH paths of one prefix
 }
 ATTRS = {
     'x': {'v4u': 'next-hop 192.0.2.1 med 10', 'v6u': 'next-hop 2001:db8::1 med 10'},
